@@ -265,6 +265,20 @@ func c02Inject(c *Ctx, s *injectShape) {
 			}
 		}
 		r.Check("C02.4", fmt.Sprintf("apply-accumulator:%d", i), sameAcc, c.pos(in), "Apply's receiver is the accumulator every Append wrote to")
+		// the accumulator starts empty in every request: an object that outlives the call
+		// (a field of the cache, a package variable, a pool) carries the edits of a request
+		// that ended before its Apply - e.g. with an unresolvable name - into the next one
+		if len(args) == 2 {
+			fresh, desc := true, []string{}
+			for _, p := range c.U.PathsOf(args[0]) {
+				desc = append(desc, p.String())
+				if a, ok := p.Root.(*ssa.Alloc); !ok || a.Parent() != fn || len(p.Sels) != 0 {
+					fresh = false
+				}
+			}
+			r.Check("C02.4", fmt.Sprintf("accumulator-per-request:%d", i), fresh && len(desc) > 0, c.pos(in),
+				"the accumulator applied is "+strings.Join(desc, ",")+" (must be an object created by this call, so that it holds the edits of this request only)")
+		}
 		if in.Parent() == fn {
 			msg := c.errflow(fn, ap)
 			r.Check("C02.4", fmt.Sprintf("apply-error:%d", i), msg == "", c.pos(in), "error of Apply propagated"+ifMsg(msg))
